@@ -134,13 +134,13 @@ def runQuery (m : Mode) (d : Dev) (q : String) : String × Dev :=
   | ["desc", n] => (showM (deviceDescription m p (nat! n)) showStr, d)
   | _ => ("bad-query", d)
 
-/-- Device memory from an image and a fill rule: bytes past the image read as `ff`/`00`, or the image repeats. -/
-def mkRd (img : Array Nat) (fill : String) : Nat → Nat :=
-  if fill = "wrap" then
-    if img.size = 0 then fun _ => 255 else fun a => img.getD (a % img.size) 0
-  else
-    let f := if fill = "00" then 0 else 255
-    fun a => img.getD a f
+/-- Device memory from an image and a fill rule (`code`: 0 = `ff`, 1 = `00`, 2 = wrap): bytes past the image
+    read as `ff`/`00`, or the image repeats. -/
+def rdOf (img : Array Nat) (code : Nat) (a : Nat) : Nat :=
+  if code = 2 then (if img.size = 0 then 255 else img.getD (a % img.size) 0)
+  else img.getD a (if code = 1 then 0 else 255)
+
+def fillCode (fill : String) : Nat := if fill = "wrap" then 2 else if fill = "00" then 1 else 0
 
 def handle (args : List String) : String :=
   match args with
@@ -149,7 +149,7 @@ def handle (args : List String) : String :=
     s!"attempts={writeWordProto fun i => bits.getD i false}"
   | [mode, cs, fill, img, qs] =>
     let m := if mode = "w" then Mode.wrapping else Mode.checked
-    let d0 : Dev := ⟨mkRd (hex! img).toArray fill, nat! cs, []⟩
+    let d0 : Dev := ⟨rdOf (hex! img).toArray (fillCode fill), nat! cs, []⟩
     let st := (splitOn qs ";").foldl (fun (st : List String × Dev) q =>
       let r := runQuery m st.2 q
       (r.1 :: st.1, r.2)) ([], d0)
